@@ -1,5 +1,5 @@
 SPECIFICATION Spec
-VIEW ModelView
+VIEW CheckView
 INVARIANT Inv_Sym
 INVARIANT Inv_Owner
 INVARIANT Inv_Counters
